@@ -171,6 +171,11 @@ func genCliCase(r *gen.Rand) cliCase {
 	k.Kind = r.PickStr([]string{"window", "window", "pos", "pos", "unique", "unique"})
 	if r.Chance(0.6) {
 		k.RefRow = r.Intn(n)
+		for i, nm := range a.Names {
+			if nm == "none" && r.Chance(0.8) {
+				k.RefRow = i // a reference whose name spells the default value of --ref-seq
+			}
+		}
 	}
 	if r.Chance(0.75) {
 		k.Repl = r.PickStr([]string{"AMBIG", "GAP", "GAP", "MAJ", "MAJ", "-", "N", "#"})
